@@ -1,8 +1,9 @@
 (* C10 -- sequential composition runs one source at a time, in order.
    Machines: Ops/Combinators.v (x_concat, x_catch, x_retry, x_repeat, x_oern,
-   x_while_do, x_do_while, x_catch_handler), run by the runner of Ops/Multi.v. *)
+   x_while_do, x_do_while, x_catch_handler; x_concat_lazy, x_catch_lazy, x_oern_f for
+   lazy iterables / for_in / factory arguments), run by the runner of Ops/Multi.v. *)
 From RxVerif Require Import Base.Prelude Ops.Machine Ops.Multi Ops.MultiFacts Ops.RunLemmas
-  Ops.Combinators Ops.SequentialFacts Ops.CatchFacts Ops.RepeatFacts.
+  Ops.Combinators Ops.SequentialFacts Ops.CatchFacts Ops.RepeatFacts Ops.LazySeqFacts.
 
 (* for EVERY input sequence (arbitrary interleaving of all sources, conforming
    or not), at every moment at most one source is subscribed *)
@@ -111,4 +112,68 @@ Example C10_witness_repeat_exactly_n :
   count_subs (map snd (fst (run (x_repeat (Some 3%nat))
      [(0, ISrc 0%nat (Next 5)); (0, ISrc 0%nat Done); (0, ISrc 0%nat Done); (0, ISrc 0%nat Done);
       (0, ISrc 0%nat (Next 6))]))) = 3%nat.
+Proof. vm_compute. reflexivity. Qed.
+
+(* ---- lazy iterables (concat_with_iterable / catch_with_iterable of a generator,
+   for_in) and factory arguments of on_error_resume_next -------------------- *)
+(* for_in / concat over a lazy iterable: for EVERY input sequence and EVERY mapper
+   (raising or not) at most one source is subscribed at any moment *)
+Theorem C10_for_in_one_source_at_a_time : forall A n produce tail (ins : list (Z * inp A)),
+  (length (r_live (snd (run (x_concat_lazy n produce tail) ins))) <= 1)%nat.
+Proof. exact @lazy_one_at_a_time. Qed.
+Print Assumptions C10_for_in_one_source_at_a_time.
+
+(* the lazy iterable is advanced (effect) and the next source subscribed ONLY in
+   the handler of a completion (concat, for_in) resp. of an error (catch) *)
+Theorem C10_for_in_mapper_called_only_on_completion : forall A n produce tail cur now (i : inp A),
+  touches (snd (fst (x_step (x_concat_lazy n produce tail) cur now i))) = true -> exists k, i = ISrc k Done.
+Proof. exact @concat_lazy_advances_on_completion. Qed.
+Print Assumptions C10_for_in_mapper_called_only_on_completion.
+Theorem C10_catch_iterable_advanced_only_on_error : forall A n produce tail cur now (i : inp A),
+  touches (snd (fst (x_step (x_catch_lazy n produce tail) cur now i))) = true -> exists k e, i = ISrc k (Err e).
+Proof. exact @catch_lazy_advances_on_error. Qed.
+Print Assumptions C10_catch_iterable_advanced_only_on_error.
+
+(* with a production that never raises, erasing the iterable's side effects from
+   the trace gives exactly the trace of concat / catch over the list of the same
+   sources, for EVERY input sequence: the theorems above about x_concat / x_catch
+   (closed forms included) hold for the lazy variants *)
+Theorem C10_concat_lazy_iterable_same_behaviour : forall A n tail (ins : list (Z * inp A)),
+  erase (fst (run (x_concat_lazy n (fun _ => Ok tt) tail) ins)) = fst (run (x_concat n) ins)
+  /\ snd (run (x_concat_lazy n (fun _ => Ok tt) tail) ins) = snd (run (x_concat n) ins).
+Proof. exact @concat_lazy_erases. Qed.
+Print Assumptions C10_concat_lazy_iterable_same_behaviour.
+Theorem C10_catch_lazy_iterable_same_behaviour : forall A n tail (ins : list (Z * inp A)),
+  erase (fst (run (x_catch_lazy n (fun _ => Ok tt) tail) ins)) = fst (run (x_catch n) ins)
+  /\ snd (run (x_catch_lazy n (fun _ => Ok tt) tail) ins) = snd (run (x_catch n) ins).
+Proof. exact @catch_lazy_erases. Qed.
+Print Assumptions C10_catch_lazy_iterable_same_behaviour.
+
+(* on_error_resume_next with factories: same boundary behaviour as with plain
+   sources, and a factory is called only when the previous source terminates,
+   with that source's error (code e) or None (code 0) *)
+Theorem C10_oern_factories_same_behaviour : forall A n fact (ins : list (Z * inp A)),
+  erase (fst (run (x_oern_f n fact) ins)) = fst (run (x_oern n) ins)
+  /\ snd (run (x_oern_f n fact) ins) = snd (run (x_oern n) ins).
+Proof. exact @oern_factories_erase. Qed.
+Print Assumptions C10_oern_factories_same_behaviour.
+Theorem C10_oern_factory_argument : forall A n fact cur now (i : inp A) z,
+  In (CEffect z) (snd (fst (x_step (x_oern_f n fact) cur now i))) ->
+  exists k t, i = ISrc k t /\ is_terminal t = true /\ fact (S cur) = true /\
+              z = 1000 * Z.of_nat (S cur) + match t with Err e => e | _ => 0 end.
+Proof. exact @oern_factory_argument. Qed.
+Print Assumptions C10_oern_factory_argument.
+
+Example C10_witness_for_in_lazy :
+  fst (run (x_concat_lazy (A:=Z) 2 (fun _ => Ok tt) false) [(0, ISrc 0%nat (Next 1)); (0, ISrc 0%nat Done); (0, ISrc 1%nat Done)])
+  = [(0%nat, OEffect 0); (0%nat, OSub 0%nat); (1%nat, OEmit (Next 1)); (2%nat, OEffect 1); (2%nat, OSub 1%nat);
+     (2%nat, OUnsub 0%nat); (3%nat, OUnsub 1%nat); (3%nat, OEmit Done)].
+Proof. vm_compute. reflexivity. Qed.
+Example C10_witness_for_in_mapper_raises :
+  emitted (fst (run (x_concat_lazy (A:=Z) 2 (fun j => match j with O => Ok tt | _ => Raise 63 end) false)
+                  [(0, ISrc 0%nat (Next 1)); (0, ISrc 0%nat Done)])) = [Next 1; Err 63].
+Proof. vm_compute. reflexivity. Qed.
+Example C10_witness_oern_factory :
+  fst (run (x_oern_f (A:=Z) 2 (fun _ => true)) [(0, ISrc 0%nat (Err 12))])
+  = [(0%nat, OEffect 0); (0%nat, OSub 0%nat); (1%nat, OEffect 1012); (1%nat, OSub 1%nat); (1%nat, OUnsub 0%nat)].
 Proof. vm_compute. reflexivity. Qed.
